@@ -7,6 +7,9 @@ open Morfuse.Target
 structure St where
   cfg : Cfg := {}
   s : State := init
+  /-- a Warn stream is attached: without one `HandleScriptException` prints nothing (the `!…`
+      tokens), everything else is the same -/
+  warn : Bool := true
 
 def ids (rs : List WeakRef) : String :=
   ",".intercalate (rs.map fun r => match r with | some o => toString o | none => "0")
@@ -79,6 +82,13 @@ def step (st : St) (t : List String) : St × String :=
     match flag sn "snapshot", flag ff "fieldfan", flag mx "max" with
     | some a, some b, some c => ({ cfg := { snapshot := a == 1, fieldFan := b == 1, maxObj := c }, s := init }, "ok")
     | _, _, _ => (st, "bad-op")
+  -- with the output streams of the context: dbg = Debug attached, warn = Warn attached,
+  -- dev = developer mode (source positions in front of warnings; dropped by the harness)
+  | ["universe", sn, ff, mx, dg, wn, dv] =>
+    match flag sn "snapshot", flag ff "fieldfan", flag mx "max", flag dg "dbg", flag wn "warn", flag dv "dev" with
+    | some a, some b, some c, some d, some w, some _ =>
+      ({ cfg := { snapshot := a == 1, fieldFan := b == 1, maxObj := c, dbg := d == 1 }, s := init, warn := w == 1 }, "ok")
+    | _, _, _, _, _, _ => (st, "bad-op")
   -- host level: calls on the real TargetList / TargetComponent
   | ["spawn"] =>
     if st.cfg.maxObj < st.s.nextObj then (st, "bad-op") else
@@ -119,7 +129,9 @@ def step (st : St) (t : List String) : St × String :=
     | some stm =>
       match stmt st.cfg { st.s with out := [] } stm with
       | .ub => (st, "ub")
-      | .ok s' => ({ st with s := s' }, s!"ok out=[{"|".intercalate s'.out}] {dump s'}")
+      | .ok s' =>
+        let shown := if st.warn then s'.out else s'.out.filter fun t => !t.startsWith "!"
+        ({ st with s := s' }, s!"ok out=[{"|".intercalate shown}] {dump s'}")
   | _ => (st, "bad-op")
 
 def main : IO Unit := Driver.runLoop step {}
